@@ -338,8 +338,11 @@ def _run_normalize(case, ck):
     from holopy.core.process import normalize
     nx, ny = case["nx"], case["ny"]
     acc = []
-    for kind in ("ramp", "mixed", "const", "ints"):
-        v0 = _vals(kind, nx, ny)
+    for kind in ("ramp", "mixed", "const", "ints", "negmean"):
+        # negmean: an image whose pixel sum is negative (a difference or
+        # dark-subtracted frame)
+        v0 = -_vals("mixed", nx, ny) if kind == "negmean" else \
+            _vals(kind, nx, ny)
         cond = _cond(v0)
         for meta in META:
             base = None
